@@ -54,7 +54,7 @@ func checkC11(c *Ctx) {
 
 func runC11(c *Ctx, n, t, D, V int, kind string, seed uint64) {
 	wit := map[string]interface{}{"n": n, "t": t, "dealer": D, "victim": V, "kind": kind, "case_seed": seed}
-	w, err := world.NewWorld(world.Options{N: n, T: t, Seed: seed})
+	w, err := world.NewWorld(world.Options{N: n, T: t, Seed: seed, OddNames: seed%4 == 1})
 	if err != nil {
 		c.Inconclusive("world: %v", err)
 		return
